@@ -358,4 +358,161 @@ theorem sample_ctr (p : Nat) (evs : List Event) (i : Nat) : producedCtr (sample 
   simp only [sample, producedCtr_append, flush_ctr]
   omega
 
+/-! ## the executable statement is the statement -/
+
+theorem le_maxLen (l : List Nat) (x : Nat) (h : x ∈ l) : x ≤ maxLen l := by
+  induction l with
+  | nil => cases h
+  | cons y r ih =>
+    simp only [List.mem_cons] at h
+    simp only [maxLen]
+    rcases h with rfl | h
+    · exact Nat.le_max_left _ _
+    · exact Nat.le_trans (ih h) (Nat.le_max_right _ _)
+
+theorem ctr_beyond (s : Stats) (i : Nat) (h : s.c.length ≤ i) : s.ctr i = 0 := by
+  unfold Stats.ctr
+  simp [List.getD, List.getElem?_eq_none h]
+
+theorem producedCtr_beyond (evs : List Event) (i : Nat) (h : ∀ e ∈ evs, e.stats.c.length ≤ i) : producedCtr evs i = 0 := by
+  induction evs with
+  | nil => rfl
+  | cons e r ih =>
+    simp only [producedCtr_cons]
+    rw [ctr_beyond _ _ (h e (by simp)), ih (fun x hx => h x (by simp [hx]))]
+
+theorem deliveredCtr_beyond (msgs : List Msg) (i : Nat) (h : ∀ m ∈ msgs, m.statsLen ≤ i) : deliveredCtr msgs i = 0 := by
+  induction msgs with
+  | nil => rfl
+  | cons m r ih =>
+    simp only [deliveredCtr_cons]
+    rw [ih (fun x hx => h x (by simp [hx]))]
+    have hm := h m (by simp)
+    unfold Msg.ctr
+    unfold Msg.statsLen at hm
+    cases hs : m.stats with
+    | none => simp
+    | some st =>
+      rw [hs] at hm
+      simp [ctr_beyond _ _ hm]
+
+/-- beyond `width` every counter is 0 on both sides -/
+theorem beyond_width (evs : List Event) (msgs : List Msg) (i : Nat) (h : width evs msgs ≤ i) :
+    deliveredCtr msgs i = 0 ∧ producedCtr evs i = 0 := by
+  constructor
+  · apply deliveredCtr_beyond
+    intro m hm
+    exact Nat.le_trans (le_maxLen _ _ (by simp; exact Or.inr ⟨m, hm, rfl⟩)) h
+  · apply producedCtr_beyond
+    intro e he
+    exact Nat.le_trans (le_maxLen _ _ (by simp; exact Or.inl ⟨e, he, rfl⟩)) h
+
+/-! ## flush collector (search/aggregate.go) -/
+
+/-- what the collector still holds -/
+def heldF (c : Collector) : List File := if c.collecting then (c.agg.getD Event.empty).files else []
+def heldC (c : Collector) (i : Nat) : Nat := if c.collecting then (c.agg.getD Event.empty).stats.ctr i else 0
+
+def opFiles : FOp → List File
+  | .send e => e.files
+  | .timer => []
+def opCtr (i : Nat) : FOp → Nat
+  | .send e => e.stats.ctr i
+  | .timer => 0
+
+theorem sentEvents_cons_files (op : FOp) (rest : List FOp) :
+    producedFiles (sentEvents (op :: rest)) = opFiles op ++ producedFiles (sentEvents rest) := by
+  cases op <;> simp [sentEvents, opFiles]
+
+theorem sentEvents_cons_ctr (op : FOp) (rest : List FOp) (i : Nat) :
+    producedCtr (sentEvents (op :: rest)) i = opCtr i op + producedCtr (sentEvents rest) i := by
+  cases op <;> simp [sentEvents, opCtr]
+
+theorem flushOut_files (sort : List File → List File) (hsort : ∀ l, (sort l).Perm l) (agg : Option Event) (r : Nat) :
+    (producedFiles (flushOut sort agg r)).Perm (agg.getD Event.empty).files := by
+  cases agg with
+  | none => simp [flushOut, Event.empty]
+  | some a => simpa [flushOut] using hsort a.files
+
+theorem flushOut_ctr (sort : List File → List File) (agg : Option Event) (r i : Nat) :
+    producedCtr (flushOut sort agg r) i = (agg.getD Event.empty).stats.ctr i := by
+  cases agg with
+  | none => simp [flushOut, Event.empty, ctr_empty]
+  | some a => simp [flushOut, Stats.ctr]
+
+theorem step_files (sort : List File → List File) (hsort : ∀ l, (sort l).Perm l) (c : Collector) (op : FOp) :
+    (producedFiles (c.step sort op).2 ++ heldF (c.step sort op).1).Perm (heldF c ++ opFiles op) := by
+  cases op with
+  | send e =>
+    by_cases hc : c.collecting = true
+    · simp [Collector.step, hc, heldF, collectAdd, opFiles]
+    · simp [Collector.step, hc, heldF, opFiles]
+  | timer =>
+    by_cases hc : c.collecting = true
+    · simpa [Collector.step, hc, heldF, opFiles] using flushOut_files sort hsort c.agg 1
+    · simp [Collector.step, hc, heldF, opFiles]
+
+theorem step_ctr (sort : List File → List File) (c : Collector) (op : FOp) (i : Nat) :
+    producedCtr (c.step sort op).2 i + heldC (c.step sort op).1 i = heldC c i + opCtr i op := by
+  cases op with
+  | send e =>
+    by_cases hc : c.collecting = true
+    · simp [Collector.step, hc, heldC, collectAdd, opCtr, ctr_add]
+    · simp [Collector.step, hc, heldC, opCtr]
+  | timer =>
+    by_cases hc : c.collecting = true
+    · simp [Collector.step, hc, heldC, opCtr, flushOut_ctr]
+    · simp [Collector.step, hc, heldC, opCtr]
+
+theorem crun_files (sort : List File → List File) (hsort : ∀ l, (sort l).Perm l) (c : Collector) (ops : List FOp) :
+    (producedFiles (Collector.run sort c ops).2 ++ heldF (Collector.run sort c ops).1).Perm
+      (heldF c ++ producedFiles (sentEvents ops)) := by
+  induction ops generalizing c with
+  | nil => simp [Collector.run, sentEvents]
+  | cons op rest ih =>
+    simp only [Collector.run, producedFiles_append, sentEvents_cons_files, List.append_assoc]
+    have h1 := step_files sort hsort c op
+    have h2 := ih (c.step sort op).1
+    -- o1 ++ (o2 ++ held2) ~ o1 ++ (held1 ++ sent) ~ (held ++ opF) ++ sent
+    refine (List.Perm.append_left _ h2).trans ?_
+    rw [← List.append_assoc, ← List.append_assoc]
+    exact List.Perm.append_right _ h1
+
+theorem crun_ctr (sort : List File → List File) (c : Collector) (ops : List FOp) (i : Nat) :
+    producedCtr (Collector.run sort c ops).2 i + heldC (Collector.run sort c ops).1 i
+      = heldC c i + producedCtr (sentEvents ops) i := by
+  induction ops generalizing c with
+  | nil => simp [Collector.run, sentEvents]
+  | cons op rest ih =>
+    simp only [Collector.run, producedCtr_append, sentEvents_cons_ctr]
+    have h1 := step_ctr sort c op i
+    have h2 := ih (c.step sort op).1
+    omega
+
+theorem collect_files (sort : List File → List File) (hsort : ∀ l, (sort l).Perm l) (ops : List FOp) :
+    (producedFiles (collect sort ops)).Perm (producedFiles (sentEvents ops)) := by
+  have h := crun_files sort hsort Collector.init ops
+  simp only [collect, producedFiles_append]
+  have h0 : heldF Collector.init = [] := by simp [heldF, Collector.init, Event.empty]
+  rw [h0, List.nil_append] at h
+  refine List.Perm.trans (List.Perm.append_left _ ?_) h
+  by_cases hc : (Collector.run sort Collector.init ops).1.collecting = true
+  · simpa [hc, heldF] using flushOut_files sort hsort _ 2
+  · simp [hc, heldF]
+
+theorem collect_ctr (sort : List File → List File) (ops : List FOp) (i : Nat) :
+    producedCtr (collect sort ops) i = producedCtr (sentEvents ops) i := by
+  have h := crun_ctr sort Collector.init ops i
+  have h0 : heldC Collector.init i = 0 := by simp [heldC, Collector.init, Event.empty, ctr_empty]
+  simp only [collect, producedCtr_append]
+  rw [h0] at h
+  by_cases hc : (Collector.run sort Collector.init ops).1.collecting = true
+  · simp only [hc, if_true, flushOut_ctr]
+    simp only [heldC, hc, if_true] at h
+    omega
+  · simp only [hc]
+    simp only [heldC, hc] at h
+    simp at h ⊢
+    omega
+
 end ZoektModel.C25
